@@ -13,21 +13,22 @@ Theorem C11_success_iff_committed : forall tr k, no_posterr tr ->
 Proof. intros tr k H. exact (success_iff_committed tr 0 k sys0 H). Qed.
 Print Assumptions C11_success_iff_committed.
 
-(* failure of any storage operation up to and including the commit (other than a best-effort one, whose
-   failure is ignored by design): error reported, primary state unchanged *)
+(* failure of any storage operation -- a single one, a pair, any set -- of which at least one lies at or before
+   the commit on an operation that is not best-effort: error reported, primary state unchanged *)
 Theorem C11_fault_upto_commit_unchanged : forall tr k n,
-  commit_index tr = Some n -> (k <= n)%nat -> nth_error tr k <> Some Opt ->
-  snd (run_request tr (Some k)) = RErr /\ committed (fst (run_request tr (Some k))) = false.
+  commit_index tr = Some n ->
+  (exists f, In f k /\ (f <= n)%nat /\ nth_error tr f <> Some Opt) ->
+  snd (run_request tr k) = RErr /\ committed (fst (run_request tr k)) = false.
 Proof.
-  intros tr k n Hc Hk Ho. apply (fault_upto_commit_unchanged tr 0 k sys0 n eq_refl Hc (Nat.le_0_l k) Hk).
-  rewrite Nat.sub_0_r. exact Ho.
+  intros tr k n Hc (f & Hin & Hle & Ho). apply (fault_upto_commit_unchanged tr 0 k sys0 n eq_refl Hc).
+  exists f. repeat split; auto; try lia. rewrite Nat.sub_0_r. exact Ho.
 Qed.
 Print Assumptions C11_fault_upto_commit_unchanged.
 
-(* failure of a follow-up operation does not turn a durable write into a failure or undo it *)
+(* failures of follow-up operations only (any number) do not turn a durable write into a failure or undo it *)
 Theorem C11_fault_after_commit_success : forall tr k n, no_posterr tr ->
-  commit_index tr = Some n -> (n < k)%nat ->
-  snd (run_request tr (Some k)) = ROk /\ committed (fst (run_request tr (Some k))) = true.
+  commit_index tr = Some n -> (forall f, In f k -> (n < f)%nat) ->
+  snd (run_request tr k) = ROk /\ committed (fst (run_request tr k)) = true.
 Proof. intros tr k n H Hc Hk. exact (fault_after_commit_success tr 0 k sys0 n H eq_refl Hc Hk). Qed.
 Print Assumptions C11_fault_after_commit_success.
 
